@@ -90,10 +90,24 @@ def run(p: Program, rep: Report, tier: str) -> None:
             rep.violation("R18.1", construct(init, text=f"{which}: _url"), where(init), f"the {which} branch does not store the URL it built")
     if set(seen) != {"scope", "environ"}:
         rep.undecide("R18.1", f"URL.__init__ branches found: {sorted(seen)}")
-    # asgi host header: first b"host" header wins
-    src = ast.unparse(init.node)
-    if "if key == b'host'" in src and "break" in src:
-        rep.ok("R18.1", "scope: the Host header is read from scope['headers'] (b'host')")
+    # asgi host header: the value of the first pair of scope['headers'] whose name equals b"host", decoded as Latin-1
+    HDRS = ("elem", ("sub", ("param", "scope"), ("const", "headers")))
+    host_ok = host_bad = False
+    for pa in paths:
+        if pa.exit != "return" or (("cmp", "Is", ("param", "scope"), NONE), False) not in pa.facts:
+            continue
+        bs = [e for e in pa.events if e.kind == "call" and callee_is(e.a, "_build_url")]
+        if len(bs) != 1 or len(bs[0].b) != 5 or bs[0].b[4] == NONE:
+            continue
+        h = bs[0].b[4]
+        name_eq = (("cmp", "Eq", ("unpack", HDRS, 0), ("const", b"host")), True) in pa.facts or (("cmp", "Eq", ("const", b"host"), ("unpack", HDRS, 0)), True) in pa.facts
+        val_ok = h[0] == "call" and h[1] == ("attr", ("unpack", HDRS, 1), "decode") and h[2][:1] in ((("const", "latin-1"),), (("const", "latin1"),), (("const", "iso-8859-1"),))
+        if name_eq and val_ok:
+            host_ok = True
+        else:
+            host_bad = True
+    if host_ok and not host_bad:
+        rep.ok("R18.1", "scope: the Host header is the Latin-1 decoded value of the scope['headers'] pair named b'host'")
     else:
         rep.violation("R18.1", construct(init, text="host header scan"), where(init), "the scope branch does not read the b'host' header")
     rep.require_instances("R18.1", 12)
@@ -190,57 +204,230 @@ def run(p: Program, rep: Report, tier: str) -> None:
     rep.require_instances("R18.3", 1)
 
     # ---------------------------------------------------------------- R18.4
-    src = ast.unparse(rpl.node)
-    checks = {
-        "port": "kwargs.pop('port', self.port)",
-        "username": "kwargs.pop('username', self.username)",
-        "password": "kwargs.pop('password', self.password)",
-        "hostname": "kwargs.pop('hostname', None)",
-    }
-    for k, t in checks.items():
-        if t in src:
-            rep.ok("R18.4", f"replace: {k} defaults to the current component ({t})")
+    kw = rpl.node.args.kwarg.arg if rpl.node.args.kwarg else None
+    if kw is None:
+        raise AnalysisError("URL.replace no longer takes **kwargs")
+    KW = ("param", kw)
+    SELF = ("param", "self")
+    NAMES = ("username", "password", "hostname", "port")
+
+    def popped(v: Value) -> Optional[str]:
+        if v[0] == "call" and v[1] == ("attr", KW, "pop") and v[2] and v[2][0][0] == "const" and v[2][0][1] in NAMES:
+            return v[2][0][1]
+        return None
+
+    def flatten(v: Value) -> List:
+        if v[0] == "const" and isinstance(v[1], str):
+            return [v[1]]
+        if v[0] == "fstr":
+            out: List = []
+            for part in v[1]:
+                out += flatten(part)
+            return out
+        if v[0] == "binop" and v[1] == "Add":
+            return flatten(v[2]) + flatten(v[3])
+        if v[0] == "fmt" and v[2] in ("", "s") and v[3] == "":
+            return flatten(v[1])
+        return [v]
+
+    def merge(seq: List) -> List:
+        out: List = []
+        for x in seq:
+            if isinstance(x, str) and out and isinstance(out[-1], str):
+                out[-1] += x
+            elif x != "":
+                out.append(x)
+        return out
+
+    def none_fact(pa: Path, name: str) -> Optional[bool]:
+        for f, t in pa.facts:
+            if f[0] == "cmp" and f[1] in ("Is", "IsNot") and f[3] == NONE and popped(f[2]) == name:
+                return t if f[1] == "Is" else not t
+        return None
+
+    def current_host(t: Value, pa: Path) -> Optional[str]:
+        """the host cut out of the current netloc TEXT: everything after the last '@', the port removed unless the text ends in ']'"""
+        def after_at(x: Value) -> bool:
+            if x[0] == "unpack" and x[2] == 2 and x[1][0] == "call" and x[1][1] == ("attr", ("attr", SELF, "netloc"), "rpartition") and x[1][2] == (("const", "@"),):
+                return True
+            if x[0] == "sub" and x[2] in (("const", 2), ("const", -1)) and x[1][0] == "call" and x[1][1][0] == "attr" and x[1][1][1] == ("attr", SELF, "netloc") \
+                    and ((x[1][1][2] == "rpartition" and x[1][2] == (("const", "@"),)) or (x[1][1][2] == "rsplit" and x[1][2] == (("const", "@"), ("const", 1)) and x[2] == ("const", -1))):
+                return True
+            return False
+        if after_at(t):
+            br = [tt for f, tt in pa.facts if f[0] == "cmp" and f[1] in ("Eq", "NotEq") and f[3] == ("const", "]") and f[2][0] == "sub" and f[2][1] == t and f[2][2] == ("const", -1)]
+            br2 = [tt for f, tt in pa.facts if f[0] == "call" and f[1] == ("attr", t, "endswith") and f[2] == (("const", "]"),)]
+            ends = None
+            for f, tt in pa.facts:
+                if f[0] == "cmp" and f[3] == ("const", "]") and f[2][0] == "sub" and f[2][1] == t and f[2][2] == ("const", -1):
+                    ends = tt if f[1] == "Eq" else (not tt if f[1] == "NotEq" else None)
+                if f[0] == "call" and f[1] == ("attr", t, "endswith") and f[2] == (("const", "]"),):
+                    ends = tt
+            return "whole" if ends is True else "whole-unguarded"
+        if t[0] == "sub" and t[2] == ("const", 0) and t[1][0] == "call" and t[1][1][0] == "attr" and t[1][1][2] == "rsplit" and t[1][2] == (("const", ":"), ("const", 1)) and after_at(t[1][1][1]):
+            base = t[1][1][1]
+            for f, tt in pa.facts:
+                if f[0] == "cmp" and f[3] == ("const", "]") and f[2][0] == "sub" and f[2][1] == base and f[2][2] == ("const", -1):
+                    if (f[1] == "Eq" and tt is False) or (f[1] == "NotEq" and tt is True):
+                        return "port-cut"
+                if f[0] == "call" and f[1] == ("attr", base, "endswith") and f[2] == (("const", "]"),) and tt is False:
+                    return "port-cut"
+            return "port-cut-unguarded"
+        return None
+
+    paths, col, it = run_paths(p, rpl, url)
+    rep.cfg_paths += len(paths)
+    n_netloc = 0
+    shapes = set()
+    for pa in paths:
+        if pa.exit != "return":
+            continue
+        stores = [e for e in pa.events if e.kind == "store" and e.a[0] == "sub" and e.a[1] == KW]
+        member = {n: None for n in NAMES}
+        for f, t in pa.facts:
+            if f[0] == "cmp" and f[1] == "In" and f[3] == KW and f[2][0] == "const" and f[2][1] in NAMES:
+                member[f[2][1]] = t
+        entered = any(v is True for v in member.values())
+        # delegation of everything else
+        v = pa.value
+        deleg = v[0] == "call" and v[1] in (("attr", SELF, "__class__"), ("cls", url.fq)) and len(v[2]) == 1 and v[2][0][0] == "call" and v[2][0][1][0] == "attr" and v[2][0][1][2] == "geturl" \
+            and v[2][0][1][1][0] == "call" and v[2][0][1][1][1] == ("attr", ("attr", SELF, "components"), "_replace")
+        if not deleg:
+            shapes.add("nodeleg")
+            rep.violation("R18.4", construct(rpl, text="component replacement"), where(rpl), "replace() does not delegate the remaining components to SplitResult._replace / geturl()")
+            continue
+        if not entered:
+            if stores:
+                rep.violation("R18.4", construct(rpl, text="netloc store"), where(rpl), "kwargs['netloc'] is written outside the branch that popped the netloc components (other components are overwritten)", path_facts=pa.fact_text()[:6])
+            elif all(vv is False for vv in member.values()):
+                shapes.add("untouched")
+            else:
+                rep.violation("R18.4", construct(rpl, text=f"netloc branch for {sorted(k for k, vv in member.items() if vv is not None)}"), where(rpl),
+                              f"the netloc rebuild is not triggered by exactly username/password/hostname/port (tested on this path: {sorted(k for k, vv in member.items() if vv is not None)})")
+            continue
+        nl = [e for e in stores if e.a[2] == ("const", "netloc")]
+        if len(nl) != 1 or len(stores) != 1:
+            rep.violation("R18.4", construct(rpl, text="netloc store"), where(rpl), "a path that received a netloc component does not write kwargs['netloc'] exactly once", path_facts=pa.fact_text()[:6])
+            continue
+        n_netloc += 1
+        V = nl[0].b
+        seq = merge(flatten(V))
+        un, pn, hn, tn = (none_fact(pa, k) for k in NAMES)
+        terms = {popped(x): x for x in seq if not isinstance(x, str) and popped(x)}
+        # defaults of the popped components
+        for x in [t for t in subterms(V) if popped(t)] + [f[2] for f, t in pa.facts if f[0] == "cmp" and len(f) > 3 and f[3] == NONE and isinstance(f[2], tuple) and popped(f[2])]:
+            k = popped(x)
+            want = NONE if k == "hostname" else ("attr", SELF, k)
+            if len(x[2]) != 2 or x[2][1] != want:
+                rep.violation("R18.4", construct(rpl, text=f"{k} default"), where(rpl), f"replace() does not take the current {k} as the default when {k} is not given")
+                shapes.add("bad-default")
+        emitted_pw = any(popped(t) == "password" for t in subterms(V))
+        if un is None and emitted_pw:
+            rep.violation("R18.4", construct(rpl, text="userinfo nesting"), where(rpl), "replace(): a password is written into the netloc on a path where the user name was not tested for None: the password is not nested under "
+                          "the user name (removing the user must remove both)", path_facts=pa.fact_text()[:8])
+            shapes.add("bad")
+            continue
+        if None in (un, hn, tn) or (un is False and pn is None):
+            rep.undecide("R18.4", f"replace(): a netloc path does not test username/hostname/port for None ({pa.fact_text()[:4]})")
+            continue
+        exp: List = []
+        if not un:
+            exp.append(("T", "username"))
+            if not pn:
+                exp += [":", ("T", "password")]
+            exp.append("@")
+        exp.append(("H",))
+        if not tn:
+            exp += [":", ("T", "port")]
+        exp = merge(exp)
+        ok = len(seq) == len(exp)
+        why = ""
+        hostkind = None
+        if ok:
+            for got, want in zip(seq, exp):
+                if isinstance(want, str):
+                    ok = ok and got == want
+                elif want[0] == "T":
+                    ok = ok and not isinstance(got, str) and popped(got) == want[1]
+                else:
+                    if isinstance(got, str):
+                        ok = False
+                    elif hn is False:
+                        ok = ok and popped(got) == "hostname"
+                    else:
+                        hostkind = current_host(got, pa)
+                        if hostkind is None:
+                            ok = False
+                            why = f"the unchanged host is {show(got)[:60]}, not the host text cut out of self.netloc"
+                        elif hostkind.endswith("unguarded"):
+                            ok = False
+                            why = "the port is cut off (or kept) without testing whether the host text ends in ']'"
+        if ok:
+            shapes.add("ok")
         else:
-            rep.violation("R18.4", construct(rpl, text=f"{k} default"), where(rpl), f"replace() does not take the current {k} as the default when {k} is not given")
-    # netloc written only inside the netloc branch, and the branch is entered for exactly the four names
-    ifs = sorted((n for n in walk_shallow(rpl.node) if isinstance(n, ast.If)), key=lambda n: n.lineno)
-    top = ifs[0] if ifs else None
-    names = set()
-    if top is not None:
-        for n in ast.walk(top.test):
-            if isinstance(n, ast.Compare) and isinstance(n.left, ast.Constant):
-                names.add(n.left.value)
-    if names == {"username", "password", "hostname", "port"}:
-        rep.ok("R18.4", "the netloc branch is entered exactly for username/password/hostname/port")
-    else:
-        rep.violation("R18.4", construct(rpl, text=f"netloc branch for {sorted(names)}"), where(rpl), f"the netloc rebuild is triggered by {sorted(names)}, not by exactly username/password/hostname/port")
-    stores = [n for n in ast.walk(rpl.node) if isinstance(n, ast.Assign) and ast.unparse(n.targets[0]) == "kwargs['netloc']"]
-    if len(stores) == 1 and top is not None and any(stores[0] is x for x in ast.walk(top)) and not any(stores[0] is x for b in top.orelse for x in ast.walk(b)):
-        rep.ok("R18.4", "kwargs['netloc'] is written only inside the netloc branch")
-    else:
-        rep.violation("R18.4", construct(rpl, text="netloc store"), where(rpl), "kwargs['netloc'] is written outside the branch that popped the netloc components (other components are overwritten)")
-    if "self.components._replace(**kwargs)" in src and "self.__class__(components.geturl())" in src:
-        rep.ok("R18.4", "the remaining components are replaced by SplitResult._replace and the URL is rebuilt from geturl()")
-    else:
-        rep.violation("R18.4", construct(rpl, text="component replacement"), where(rpl), "replace() does not delegate the remaining components to SplitResult._replace / geturl()")
-    if "if username is not None" in src and "if password is not None" in src and src.index("if username is not None") < src.index("if password is not None"):
-        rep.ok("R18.4", "a password is only emitted inside the user-name branch (removing the user removes both)")
-    else:
-        rep.violation("R18.4", construct(rpl, text="userinfo nesting"), where(rpl), "the password is not nested under the user name when netloc is rebuilt")
+            text = "".join(x if isinstance(x, str) else "{" + (popped(x) or "host") + "}" for x in seq)
+            if not why:
+                want_t = "".join(x if isinstance(x, str) else "{" + (x[1] if x[0] == "T" else "host") + "}" for x in exp)
+                why = f"netloc is assembled as {text!r} where {want_t!r} is required (username None={un}, password None={pn}, port None={tn})"
+                if un and not pn and "password" in terms:
+                    why = "a password is emitted although the user name is None (removing the user must remove both)"
+            elif hn is True and hostkind is None and any(not isinstance(x, str) and any(tt == ("attr", SELF, "hostname") or tt == ("attr", ("attr", SELF, "components"), "hostname") for tt in subterms(x)) for x in seq):
+                why += " - SplitResult.hostname lower-cases the host and drops the IPv6 brackets, so replacing the port/user of 'http://EXAMPLE.com' changes the host"
+            rep.violation("R18.4", construct(rpl, text=f"netloc template {text[:80]}"), where(rpl), f"replace(): {why}", path_facts=pa.fact_text()[:8])
+            shapes.add("bad")
+    if "ok" in shapes and "bad" not in shapes and "bad-default" not in shapes:
+        rep.ok("R18.4", f"replace(): on all {n_netloc} netloc paths the text is [user[:password]@]host[:port] with the popped components (current ones as defaults), the password nested under the user name")
+        rep.ok("R18.4", "replace(): an unchanged host is cut verbatim out of the current netloc text (after the last '@', port removed unless it ends in ']')")
+        rep.ok("R18.4", "replace(): kwargs['netloc'] is written only on paths that received username/password/hostname/port")
+        rep.ok("R18.4", "replace(): the remaining components are replaced by SplitResult._replace and the URL is rebuilt from geturl()")
+    if "untouched" in shapes:
+        rep.ok("R18.4", "replace(): without a netloc component nothing but the given components changes")
+    elif "nodeleg" not in shapes:
+        rep.violation("R18.4", construct(rpl, text="netloc always rebuilt"), where(rpl), "replace() has no path that leaves the netloc alone when no netloc component is given")
+    if n_netloc < 30:
+        rep.undecide("R18.4", f"replace(): only {n_netloc} netloc paths explored (72 on the pinned tree)")
     # the user-info is everything before the LAST '@' (a password may contain '@'; urlsplit uses rpartition too)
     ats = [c for c in ast.walk(rpl.node) if isinstance(c, ast.Call) and isinstance(c.func, ast.Attribute) and c.func.attr in ("split", "rsplit", "partition", "rpartition") and c.args and isinstance(c.args[0], ast.Constant) and c.args[0].value == "@"]
-    if not ats:
-        rep.undecide("R18.4", "replace(): no split of the netloc at '@' found")
     for c in ats:
         if c.func.attr == "rpartition" or (c.func.attr == "rsplit" and len(c.args) > 1 and isinstance(c.args[1], ast.Constant) and c.args[1].value == 1):
-            rep.ok("R18.4", f"replace(): user-info is split off at the last '@' ({ast.unparse(c)})")
+            rep.ok("R18.4", f"replace(): user-info is split off at the last '@' ({c.func.attr})")
         else:
             rep.violation("R18.4", construct(rpl, text=f"netloc.{c.func.attr}('@', ...)"), where(rpl, c),
-                          f"replace() splits the netloc at the FIRST '@' ({ast.unparse(c)}): with a password containing '@' the host is cut wrongly and repr() prints part of the password")
+                          f"replace() splits the netloc at the FIRST '@' (.{c.func.attr}('@', ...)): with a password containing '@' the host is cut wrongly and repr() prints part of the password")
     colons = [c for c in ast.walk(rpl.node) if isinstance(c, ast.Call) and isinstance(c.func, ast.Attribute) and c.func.attr in ("split", "rsplit", "partition", "rpartition") and c.args and isinstance(c.args[0], ast.Constant) and c.args[0].value == ":"]
     for c in colons:
         if c.func.attr in ("rsplit", "rpartition"):
-            rep.ok("R18.4", f"replace(): the port is split off at the last ':' ({ast.unparse(c)[:40]})")
+            rep.ok("R18.4", f"replace(): the port is split off at the last ':' (.{c.func.attr})")
         else:
             rep.violation("R18.4", construct(rpl, text=f"hostname.{c.func.attr}(':', ...)"), where(rpl, c), "replace() splits host and port at the first ':'")
-    rep.require_instances("R18.4", 8)
+    rep.require_instances("R18.4", 7)
+
+    # ---------------------------------------------------------------- R18.5 the query helpers rest on the multi-value mapping
+    from ..common import stale_index_deletes
+    iq = url.methods.get("include_query_params")
+    if iq is None:
+        raise AnalysisError("URL.include_query_params vanished")
+    rep.analysed(iq.fq)
+    built = [c for c in ast.walk(iq.node) if isinstance(c, ast.Call) and isinstance(p.resolve_call(iq, c, url), ClassInfo)]
+    mm = [p.resolve_call(iq, c, url) for c in built]
+    mm = [c for c in mm if any(getattr(b, "name", "") in ("MultiMapping", "MutableMultiMapping") for b in p.mro(c))]
+    if not mm:
+        rep.undecide("R18.5", "include_query_params no longer edits a multi-value mapping of the parsed query")
+    for c in mm[:1]:
+        n5 = 0
+        for mname in ("__setitem__", "__delitem__"):
+            m = p.find_method(c, mname)
+            if m is None:
+                continue
+            rep.analysed(m.fq)
+            for node, desc, okk in stale_index_deletes(m):
+                n5 += 1
+                if okk:
+                    rep.ok("R18.5", f"set semantics of the query helper: {c.name}.{mname}: {desc}")
+                else:
+                    rep.violation("R18.5", construct(m, text="delete by stale position"), where(m, node),
+                                  f"include_query_params sets a key through {c.name}.{mname}, where {desc}: for a query in which the key occurs three or more times a pair of another key is "
+                                  "removed (or IndexError is raised) instead of 'set'")
+        if n5 == 0:
+            rep.ok("R18.5", f"set semantics of the query helper: {c.name} item assignment/deletion does not delete by position inside a loop")
+    rep.require_instances("R18.5", 1)
